@@ -138,9 +138,21 @@ class FuncView:
         for n in self.cfg.nodes:
             hit = False
             for x in self.cfg.walk_node(n):
-                if isinstance(x, (ast.Name, ast.Attribute)) and isinstance(x.ctx, (ast.Store, ast.Del)) \
-                        and suffix_match(dotted(x), pat):
-                    hit = True
+                if isinstance(x, (ast.Name, ast.Attribute)) and isinstance(x.ctx, (ast.Store, ast.Del)):
+                    if suffix_match(dotted(x), pat):
+                        hit = True
+                    elif isinstance(x, ast.Attribute):
+                        # `respondent.errored = ..` with `respondent = self.respondent`: the object written is what the local holds
+                        root = x.value
+                        while isinstance(root, ast.Attribute):
+                            root = root.value
+                        if isinstance(root, ast.Name) and root.id not in ("self", "cls"):
+                            try:
+                                v = self.sym(x.value, n)
+                                if dotted(v) and dotted(v) != dotted(x.value) and suffix_match(dotted(v) + "." + x.attr, pat):
+                                    hit = True
+                            except Exception:
+                                pass
             if hit:
                 out.append(n)
         return out
@@ -161,6 +173,14 @@ class FuncView:
                     continue
             except Exception:
                 continue
+            try:
+                # by value: `respondent = self.respondent; if respondent.ended:` is a test of self.respondent.ended
+                tv = self.sym(t, n)
+                if src(tv) != src(t) and pred(tv):
+                    out.append(n)
+                    continue
+            except Exception:
+                pass
             try:
                 neg = normalize._BoolNF().visit(normalize._negate(ast.parse(ast.unparse(t), mode="eval").body))
                 if pred(neg):
